@@ -1,7 +1,429 @@
-(* C18 - package options.  Statements only; proofs in GenProofs/C18G.v (against the regenerated Gen/Setters_gen.v). *)
-From Mxj Require Import Gen.GenSupport Gen.Setters_gen.
+(* C18 - Package options have only their documented effect and can always be restored.
+   Statements only; the proofs are in GenProofs/C18G.v, C18Idem.v, C18Inv.v, C18Restore.v, C18NI.v and are
+   about Gen/Setters_gen.v and Gen/Effects_gen.v, which go2v REGENERATES from /repo's sources on every run.
+   A result of None is a run-time panic.  [fields st] lists every option variable with its value. *)
+From Mxj Require Import Gen.GenSupport Gen.Effects_gen Gen.Setters_gen GenProofs.EffectsTheory GenProofs.C17G.
+From Mxj Require Import GenProofs.C18G GenProofs.C18Idem GenProofs.C18Inv GenProofs.C18Restore GenProofs.C18NI.
+Local Open Scope string_scope.
+Local Open Scope list_scope.
 
-(* placeholder until GenProofs/C18G.v is wired in: the initial state satisfies the prefix-length invariant *)
-Theorem C18_init_len : g_lenAttrPrefix gstate0 = Z.of_nat (length (g_attrPrefix gstate0)).
-Proof. reflexivity. Qed.
-Print Assumptions C18_init_len.
+(* ================================================================== *)
+(* T1 - every setter is its row of the documentation table              *)
+
+(* toggle without argument; set with exactly one; two or more arguments: no effect *)
+Theorem C18_T1_toggle_setters : forall st b,
+  set_IncludeTagSeqNum st b =
+    match b with [] => Some (with_includeTagSeqNum (negb (g_includeTagSeqNum st)) st)
+               | [x] => Some (with_includeTagSeqNum x st) | _ => Some st end /\
+  set_CoerceKeysToLower st b =
+    match b with [] => Some (with_lowerCase (negb (g_lowerCase st)) st)
+               | [x] => Some (with_lowerCase x st) | _ => Some st end /\
+  set_CoerceKeysToSnakeCase st b =
+    match b with [] => Some (with_snakeCaseKeys (negb (g_snakeCaseKeys st)) st)
+               | [x] => Some (with_snakeCaseKeys x st) | _ => Some st end /\
+  set_CastValuesToInt st b =
+    match b with [] => Some (with_castToInt (negb (g_castToInt st)) st)
+               | [x] => Some (with_castToInt x st) | _ => Some st end /\
+  set_HandleXMPPStreamTag st b =
+    match b with [] => Some (with_handleXMPPStreamTag (negb (g_handleXMPPStreamTag st)) st)
+               | [x] => Some (with_handleXMPPStreamTag x st) | _ => Some st end /\
+  set_DecodeSimpleValuesAsMap st b =
+    match b with [] => Some (with_decodeSimpleValuesAsMap (negb (g_decodeSimpleValuesAsMap st)) st)
+               | [x] => Some (with_decodeSimpleValuesAsMap x st) | _ => Some st end /\
+  set_CastNanInf st b =
+    match b with [] => Some (with_castNanInf (negb (g_castNanInf st)) st)
+               | [x] => Some (with_castNanInf x st) | _ => Some st end /\
+  set_CastValuesToFloat st b =
+    match b with [] => Some (with_castToFloat (negb (g_castToFloat st)) st)
+               | [x] => Some (with_castToFloat x st) | _ => Some st end /\
+  set_CastValuesToBool st b =
+    match b with [] => Some (with_castToBool (negb (g_castToBool st)) st)
+               | [x] => Some (with_castToBool x st) | _ => Some st end.
+Proof.
+  exact (fun st b =>
+    conj (IncludeTagSeqNum_char st b) (conj (CoerceKeysToLower_char st b) (conj (CoerceKeysToSnakeCase_char st b)
+    (conj (CastValuesToInt_char st b) (conj (HandleXMPPStreamTag_char st b) (conj (DecodeSimpleValuesAsMap_char st b)
+    (conj (CastNanInf_char st b) (conj (CastValuesToFloat_char st b) (CastValuesToBool_char st b))))))))).
+Qed.
+Print Assumptions C18_T1_toggle_setters.
+
+(* exactly one argument sets; none - and also two or more - toggle *)
+Theorem C18_T1_XmlCheckIsValid : forall st b,
+  set_XmlCheckIsValid st b =
+  match b with [x] => Some (with_xmlCheckIsValid x st)
+             | _ => Some (with_xmlCheckIsValid (negb (g_xmlCheckIsValid st)) st) end.
+Proof. exact XmlCheckIsValid_char. Qed.
+Print Assumptions C18_T1_XmlCheckIsValid.
+
+(* none toggles, otherwise the FIRST argument *)
+Theorem C18_T1_LeafUseDotNotation : forall st b,
+  set_LeafUseDotNotation st b =
+  Some (with_useDotNotation (match b with [] => negb (g_useDotNotation st) | x :: _ => x end) st).
+Proof. exact LeafUseDotNotation_char. Qed.
+Print Assumptions C18_T1_LeafUseDotNotation.
+
+(* none = disable trimming (flag true), otherwise the first argument; trimRunes follows the flag *)
+Theorem C18_T1_DisableTrimWhiteSpace : forall st b,
+  let v := match b with [] => true | x :: _ => x end in
+  set_DisableTrimWhiteSpace st b =
+  Some (with_trimRunes (if v then hx"090d080a" else hx"090d080a20") (with_disableTrimWhiteSpace v st)).
+Proof. exact DisableTrimWhiteSpace_char. Qed.
+Print Assumptions C18_T1_DisableTrimWhiteSpace.
+
+(* escapechars.go: the request bb (none: toggle) takes effect only while the decoder-side switch is off *)
+Theorem C18_T1_XMLEscapeChars : forall st b,
+  let bb := match b with [] => negb (g_xmlEscapeChars st) | x :: _ => x end in
+  set_XMLEscapeChars st b = Some (with_xmlEscapeChars (bb && negb (g_xmlEscapeCharsDecoder st)) st).
+Proof. exact XMLEscapeChars_char. Qed.
+Print Assumptions C18_T1_XMLEscapeChars.
+
+(* the decoder-side switch becomes d (none: toggle) and switching it on clears the encoder-side switch *)
+Theorem C18_T1_XMLEscapeCharsDecoder : forall st b,
+  let d := match b with [] => negb (g_xmlEscapeCharsDecoder st) | x :: _ => x end in
+  set_XMLEscapeCharsDecoder st b =
+  Some (with_xmlEscapeChars (g_xmlEscapeChars st && negb d) (with_xmlEscapeCharsDecoder d st)).
+Proof. exact XMLEscapeCharsDecoder_char. Qed.
+Print Assumptions C18_T1_XMLEscapeCharsDecoder.
+
+(* no argument or "" resets to ":" *)
+Theorem C18_T1_SetFieldSeparator : forall st a,
+  set_SetFieldSeparator st a =
+  Some (with_fieldSep (match a with [] => s":" | [] :: _ => s":" | x :: _ => x end) st).
+Proof. exact SetFieldSeparator_char. Qed.
+Print Assumptions C18_T1_SetFieldSeparator.
+
+Theorem C18_T1_attr_prefix : forall st,
+  (forall p, set_SetAttrPrefix st p = Some (with_lenAttrPrefix (Z.of_nat (length p)) (with_attrPrefix p st))) /\
+  set_PrependAttrWithHyphen st true = Some (with_lenAttrPrefix 1 (with_attrPrefix (s"-") st)) /\
+  set_PrependAttrWithHyphen st false = Some (with_lenAttrPrefix 0 (with_attrPrefix [] st)).
+Proof.
+  exact (fun st => conj (SetAttrPrefix_char st)
+                  (conj (PrependAttrWithHyphen_char st true) (PrependAttrWithHyphen_char st false))).
+Qed.
+Print Assumptions C18_T1_attr_prefix.
+
+(* never below 32; the function returns the new size *)
+Theorem C18_T1_SetArraySize : forall st n,
+  set_SetArraySize st n = Some (with_defaultArraySize (Z.max n 32) st, Z.max n 32).
+Proof. exact SetArraySize_char. Qed.
+Print Assumptions C18_T1_SetArraySize.
+
+Theorem C18_T1_plain_setters : forall st,
+  (forall f, set_SetCheckTagToSkipFunc st f = Some (with_checkTagToSkip f st)) /\
+  set_XmlGoEmptyElemSyntax st = Some (with_useGoXmlEmptyElemSyntax true st) /\
+  set_XmlDefaultEmptyElemSyntax st = Some (with_useGoXmlEmptyElemSyntax false st).
+Proof.
+  exact (fun st => conj (SetCheckTagToSkipFunc_char st)
+                  (conj (XmlGoEmptyElemSyntax_char st) (XmlDefaultEmptyElemSyntax_char st))).
+Qed.
+Print Assumptions C18_T1_plain_setters.
+
+(* in general: every key k becomes ReplaceAll(k, k[0:1], new); an empty key panics *)
+Theorem C18_T1_SetGlobalKeyMapPrefix_general : forall st new,
+  set_SetGlobalKeyMapPrefix st new =
+  if forallb nonempty (key_list st) then Some (map_keys (fun k => replace_all k (firstn 1 k) new) st) else None.
+Proof. exact SetGlobalKeyMapPrefix_char. Qed.
+Print Assumptions C18_T1_SetGlobalKeyMapPrefix_general.
+
+(* on keys of the form [punctuation character] ++ suffix: the prefix is replaced, the suffixes stay *)
+Theorem C18_T1_SetGlobalKeyMapPrefix : forall st p0 new,
+  In p0 puncts -> keys_at p0 st ->
+  exists st', set_SetGlobalKeyMapPrefix st new = Some st' /\
+    g_textK st' = new ++ s"text" /\ g_seqK st' = new ++ s"seq" /\ g_commentK st' = new ++ s"comment" /\
+    g_attrK st' = new ++ s"attr" /\ g_directiveK st' = new ++ s"directive" /\ g_procinstK st' = new ++ s"procinst" /\
+    g_targetK st' = new ++ s"target" /\ g_instK st' = new ++ s"inst".
+Proof. exact SetGlobalKeyMapPrefix_inv_char. Qed.
+Print Assumptions C18_T1_SetGlobalKeyMapPrefix.
+
+(* ================================================================== *)
+(* T2 - the argument-less forms                                         *)
+
+Theorem C18_T2_noarg_toggles : forall st,
+  set_IncludeTagSeqNum st [] = Some (with_includeTagSeqNum (negb (g_includeTagSeqNum st)) st) /\
+  set_CoerceKeysToLower st [] = Some (with_lowerCase (negb (g_lowerCase st)) st) /\
+  set_CoerceKeysToSnakeCase st [] = Some (with_snakeCaseKeys (negb (g_snakeCaseKeys st)) st) /\
+  set_CastValuesToInt st [] = Some (with_castToInt (negb (g_castToInt st)) st) /\
+  set_HandleXMPPStreamTag st [] = Some (with_handleXMPPStreamTag (negb (g_handleXMPPStreamTag st)) st) /\
+  set_DecodeSimpleValuesAsMap st [] = Some (with_decodeSimpleValuesAsMap (negb (g_decodeSimpleValuesAsMap st)) st) /\
+  set_CastNanInf st [] = Some (with_castNanInf (negb (g_castNanInf st)) st) /\
+  set_CastValuesToFloat st [] = Some (with_castToFloat (negb (g_castToFloat st)) st) /\
+  set_CastValuesToBool st [] = Some (with_castToBool (negb (g_castToBool st)) st) /\
+  set_XmlCheckIsValid st [] = Some (with_xmlCheckIsValid (negb (g_xmlCheckIsValid st)) st) /\
+  set_LeafUseDotNotation st [] = Some (with_useDotNotation (negb (g_useDotNotation st)) st).
+Proof.
+  exact (fun st =>
+    conj (IncludeTagSeqNum_noarg st) (conj (CoerceKeysToLower_noarg st) (conj (CoerceKeysToSnakeCase_noarg st)
+    (conj (CastValuesToInt_noarg st) (conj (HandleXMPPStreamTag_noarg st) (conj (DecodeSimpleValuesAsMap_noarg st)
+    (conj (CastNanInf_noarg st) (conj (CastValuesToFloat_noarg st) (conj (CastValuesToBool_noarg st)
+    (conj (XmlCheckIsValid_noarg st) (LeafUseDotNotation_noarg st))))))))))).
+Qed.
+Print Assumptions C18_T2_noarg_toggles.
+
+(* a toggle is an involution *)
+Theorem C18_T2_toggle_twice : forall st c st1,
+  is_toggle c = true -> apply_call st c = Some st1 -> apply_call st1 c = Some st.
+Proof. exact toggle_twice. Qed.
+Print Assumptions C18_T2_toggle_twice.
+
+(* the white-space switch does not toggle: no argument DISABLES trimming *)
+Theorem C18_T2_DisableTrimWhiteSpace_noarg : forall st,
+  set_DisableTrimWhiteSpace st [] = Some (with_trimRunes (hx"090d080a") (with_disableTrimWhiteSpace true st)).
+Proof. exact DisableTrimWhiteSpace_noarg. Qed.
+Print Assumptions C18_T2_DisableTrimWhiteSpace_noarg.
+
+(* the field separator is RESET - by no argument and by an empty first argument *)
+Theorem C18_T2_SetFieldSeparator_noarg : forall st,
+  set_SetFieldSeparator st [] = Some (with_fieldSep (s":") st) /\
+  (forall r, set_SetFieldSeparator st ([] :: r) = Some (with_fieldSep (s":") st)).
+Proof. exact (fun st => conj (SetFieldSeparator_noarg st) (SetFieldSeparator_empty st)). Qed.
+Print Assumptions C18_T2_SetFieldSeparator_noarg.
+
+(* the escaping switches toggle, subject to their interplay *)
+Theorem C18_T2_escape_noarg : forall st,
+  set_XMLEscapeChars st [] =
+    Some (with_xmlEscapeChars (negb (g_xmlEscapeChars st) && negb (g_xmlEscapeCharsDecoder st)) st) /\
+  set_XMLEscapeCharsDecoder st [] =
+    Some (with_xmlEscapeChars (g_xmlEscapeChars st && negb (negb (g_xmlEscapeCharsDecoder st)))
+            (with_xmlEscapeCharsDecoder (negb (g_xmlEscapeCharsDecoder st)) st)).
+Proof. exact (fun st => conj (XMLEscapeChars_noarg st) (XMLEscapeCharsDecoder_noarg st)). Qed.
+Print Assumptions C18_T2_escape_noarg.
+
+(* ================================================================== *)
+(* T3 - idempotence of the explicit forms                               *)
+
+Theorem C18_T3_set_idempotent : forall st c st1,
+  Inv st -> explicit c = true -> apply_call st c = Some st1 -> apply_call st1 c = Some st1.
+Proof. exact set_idempotent. Qed.
+Print Assumptions C18_T3_set_idempotent.
+
+(* all explicit forms but the key prefix: in any state whatsoever *)
+Theorem C18_T3_set_idempotent_any_state : forall st c st1,
+  explicit c = true -> is_keyprefix c = false -> apply_call st c = Some st1 -> apply_call st1 c = Some st1.
+Proof. exact set_idempotent_any_state. Qed.
+Print Assumptions C18_T3_set_idempotent_any_state.
+
+(* ================================================================== *)
+(* T4 - frame                                                           *)
+
+Theorem C18_T4_set_frame : forall st c st',
+  apply_call st c = Some st' ->
+  forall n, ~ In n (call_writes c) -> lookup n (fields st') = lookup n (fields st).
+Proof. exact set_frame. Qed.
+Print Assumptions C18_T4_set_frame.
+
+(* and the listed variables are really written: each (setter, variable) pair of the generated table has a witness *)
+Theorem C18_T4_writes_tight : forall nm vs v,
+  In (nm, vs) setter_writes -> In v vs ->
+  exists c st st', call_name c = nm /\ apply_call st c = Some st' /\ lookup v (fields st') <> lookup v (fields st).
+Proof. exact setter_writes_tight. Qed.
+Print Assumptions C18_T4_writes_tight.
+
+(* ================================================================== *)
+(* T5 - the invariant                                                   *)
+
+Theorem C18_T5_Inv_unfolded : forall st,
+  Inv st <->
+  (g_lenAttrPrefix st = Z.of_nat (length (g_attrPrefix st)) /\
+   g_trimRunes st = (if g_disableTrimWhiteSpace st then hx"090d080a" else hx"090d080a20") /\
+   ~ (g_xmlEscapeChars st = true /\ g_xmlEscapeCharsDecoder st = true) /\
+   (32 <= g_defaultArraySize st)%Z /\
+   g_fieldSep st <> [] /\
+   exists p, In p puncts /\
+     g_textK st = p :: s"text" /\ g_seqK st = p :: s"seq" /\ g_commentK st = p :: s"comment" /\
+     g_attrK st = p :: s"attr" /\ g_directiveK st = p :: s"directive" /\ g_procinstK st = p :: s"procinst" /\
+     g_targetK st = p :: s"target" /\ g_instK st = p :: s"inst").
+Proof. exact (fun st => conj (fun H => H) (fun H => H)). Qed.
+Print Assumptions C18_T5_Inv_unfolded.
+
+Theorem C18_T5_hist_ok_unfolded : forall h,
+  hist_ok h <-> (forall a, In (C_SetGlobalKeyMapPrefix a) h -> exists p, In p puncts /\ a = [p]).
+Proof. exact hist_ok_spec. Qed.
+Print Assumptions C18_T5_hist_ok_unfolded.
+
+Theorem C18_T5_inv_step : forall st c st',
+  Inv st -> call_ok c = true -> apply_call st c = Some st' -> Inv st'.
+Proof. exact inv_step. Qed.
+Print Assumptions C18_T5_inv_step.
+
+Theorem C18_T5_inv_reachable : forall h st, hist_ok h -> run h gstate0 = Some st -> Inv st.
+Proof. exact inv_reachable. Qed.
+Print Assumptions C18_T5_inv_reachable.
+
+Theorem C18_T5_setters_total : forall st c, Inv st -> call_ok c = true -> apply_call st c <> None.
+Proof. exact setters_total. Qed.
+Print Assumptions C18_T5_setters_total.
+
+Theorem C18_T5_run_total : forall h, hist_ok h -> run h gstate0 <> None.
+Proof. exact (fun h Hh => run_total h gstate0 Inv_init Hh). Qed.
+Print Assumptions C18_T5_run_total.
+
+(* ================================================================== *)
+(* T6 - restore                                                         *)
+
+Theorem C18_T6_restore_defaults : forall h st st',
+  hist_ok h -> run h gstate0 = Some st -> run restore st = Some st' -> st' = gstate0.
+Proof. exact restore_defaults. Qed.
+Print Assumptions C18_T6_restore_defaults.
+
+Theorem C18_T6_restore_fields : forall h st st',
+  hist_ok h -> run h gstate0 = Some st -> run restore st = Some st' -> fields st' = fields gstate0.
+Proof. exact restore_fields. Qed.
+Print Assumptions C18_T6_restore_fields.
+
+Theorem C18_T6_restore_total : forall h st,
+  hist_ok h -> run h gstate0 = Some st -> run restore st <> None.
+Proof. exact restore_total. Qed.
+Print Assumptions C18_T6_restore_total.
+
+Theorem C18_T6_history_then_restore : forall h, hist_ok h -> run (h ++ restore) gstate0 = Some gstate0.
+Proof. exact history_then_restore. Qed.
+Print Assumptions C18_T6_history_then_restore.
+
+(* variables that no call assigns (the two handler poll intervals) keep their initial value - for ANY history *)
+Theorem C18_T6_never_assigned_unchanged : forall h st,
+  run h gstate0 = Some st ->
+  Forall (fun n => lookup n (fields st) = lookup n (fields gstate0)) never_assigned.
+Proof. exact never_assigned_unchanged. Qed.
+Print Assumptions C18_T6_never_assigned_unchanged.
+
+(* ================================================================== *)
+(* T7 - non-interference, from the regenerated read sets                *)
+
+(* GR(f) is exactly the set of package variables f reads through some chain of calls *)
+Theorem C18_T7_GR_exact : forall f v, In v (lookup_s [] f GR) <-> touches_var effects f_greads f v.
+Proof. exact GR_exact. Qed.
+Print Assumptions C18_T7_GR_exact.
+
+Theorem C18_T7_seq_codec_ignores_attr_prefix_and_case : forall v f,
+  In v ["attrPrefix"; "lenAttrPrefix"; "lowerCase"] ->
+  In f ["NewMapXmlSeq"; "NewMapXmlSeqReader"; "NewMapXmlSeqReaderRaw"; "NewMapFormattedXmlSeq"; "MapSeq.Xml"; "MapSeq.XmlWriter"] ->
+  ~ touches_var effects f_greads f v.
+Proof. exact seq_codec_ignores_attr_prefix_and_case. Qed.
+Print Assumptions C18_T7_seq_codec_ignores_attr_prefix_and_case.
+
+Theorem C18_T7_json_ignores_attr_prefix_and_case : forall v f,
+  In v ["attrPrefix"; "lenAttrPrefix"; "lowerCase"] ->
+  In f ["Map.Json"; "Map.JsonIndent"; "Map.JsonWriter"; "Map.JsonWriterRaw"; "Map.JsonIndentWriter"; "Map.JsonIndentWriterRaw";
+        "NewMapJson"; "NewMapJsonReader"; "NewMapJsonReaderRaw"] ->
+  ~ touches_var effects f_greads f v.
+Proof. exact json_ignores_attr_prefix_and_case. Qed.
+Print Assumptions C18_T7_json_ignores_attr_prefix_and_case.
+
+Theorem C18_T7_json_reads_only_JsonUseNumber : forall f v,
+  In f json_entry -> touches_var effects f_greads f v -> v = "JsonUseNumber".
+Proof. exact json_reads_only_JsonUseNumber. Qed.
+Print Assumptions C18_T7_json_reads_only_JsonUseNumber.
+
+Theorem C18_T7_decoders_ignore_encoder_switches : forall v f,
+  In v ["xmlEscapeChars"; "useGoXmlEmptyElemSyntax"; "xmlCheckIsValid"] ->
+  In f ["NewMapXml"; "NewMapXmlReader"; "NewMapXmlReaderRaw"; "NewMapXmlSeq"; "NewMapXmlSeqReader"; "NewMapXmlSeqReaderRaw";
+        "NewMapJson"; "NewMapJsonReader"; "NewMapJsonReaderRaw"] ->
+  ~ touches_var effects f_greads f v.
+Proof. exact decoders_ignore_encoder_switches. Qed.
+Print Assumptions C18_T7_decoders_ignore_encoder_switches.
+
+Theorem C18_T7_encoders_queries_ignore_decoder_switches : forall v f,
+  In v ["includeTagSeqNum"; "lowerCase"; "snakeCaseKeys"; "decodeSimpleValuesAsMap"; "trimRunes"; "disableTrimWhiteSpace";
+        "castToInt"; "castToFloat"; "castToBool"; "castNanInf"; "xmlEscapeCharsDecoder"; "handleXMPPStreamTag";
+        "checkTagToSkip"; "XmlCharsetReader"; "CustomDecoder"] ->
+  In f ["Map.Xml"; "Map.XmlIndent"; "Map.XmlWriter"; "Map.XmlIndentWriter"; "Map.Json"; "Map.JsonIndent"; "MapSeq.Xml";
+        "Map.ValuesForPath"; "Map.ValuesForKey"; "Map.ValueForPath"; "Map.ValueForKey"; "Map.ValueForPathString";
+        "Map.PathsForKey"; "Map.PathForKeyShortest"; "Map.Exists"; "Map.LeafNodes"; "Map.LeafPaths"; "Map.LeafValues";
+        "Map.Elements"; "Map.Attributes"; "Map.Root";
+        "Map.UpdateValuesForPath"; "Map.SetValueForPath"; "Map.Remove"; "Map.RenameKey"; "Map.NewMap"] ->
+  ~ touches_var effects f_greads f v.
+Proof. exact encoders_queries_ignore_decoder_switches. Qed.
+Print Assumptions C18_T7_encoders_queries_ignore_decoder_switches.
+
+(* the exception: MapSeq.XmlIndent validates its output with NewMapXml *)
+Theorem C18_T7_seq_indent_exception :
+  touches_var effects f_greads "MapSeq.XmlIndent" "attrPrefix" /\
+  touches_var effects f_greads "MapSeq.XmlIndent" "lowerCase" /\
+  touches_var effects f_greads "MapSeq.XmlIndentWriter" "attrPrefix" /\
+  ~ touches_var effects f_greads "MapSeq.XmlIndent" "lenAttrPrefix".
+Proof. exact seq_indent_exception. Qed.
+Print Assumptions C18_T7_seq_indent_exception.
+
+(* surprising facts the read sets show *)
+Theorem C18_T7_seq_decoder_reads_snakeCaseKeys : touches_var effects f_greads "NewMapXmlSeq" "snakeCaseKeys".
+Proof. exact seq_decoder_reads_snakeCaseKeys. Qed.
+Print Assumptions C18_T7_seq_decoder_reads_snakeCaseKeys.
+
+Theorem C18_T7_disableTrimWhiteSpace_read_only_by_setter : forall f,
+  touches_var effects f_greads f "disableTrimWhiteSpace" -> f = "DisableTrimWhiteSpace".
+Proof. exact disableTrimWhiteSpace_read_only_by_setter. Qed.
+Print Assumptions C18_T7_disableTrimWhiteSpace_read_only_by_setter.
+
+(* the analysis is not vacuous: the documented dependencies are found *)
+Theorem C18_T7_documented_reads_present :
+  touches_var effects f_greads "NewMapXml" "attrPrefix" /\
+  touches_var effects f_greads "NewMapXml" "lowerCase" /\
+  touches_var effects f_greads "Map.Xml" "attrPrefix" /\
+  touches_var effects f_greads "Map.Xml" "lenAttrPrefix" /\
+  touches_var effects f_greads "Map.Xml" "xmlEscapeChars" /\
+  touches_var effects f_greads "NewMapXml" "xmlEscapeCharsDecoder" /\
+  touches_var effects f_greads "NewMapXml" "trimRunes" /\
+  touches_var effects f_greads "Map.ValuesForPath" "fieldSep" /\
+  touches_var effects f_greads "Map.ValuesForKey" "defaultArraySize" /\
+  touches_var effects f_greads "Map.LeafNodes" "useDotNotation" /\
+  touches_var effects f_greads "NewMapJson" "JsonUseNumber".
+Proof. exact documented_reads_present. Qed.
+Print Assumptions C18_T7_documented_reads_present.
+
+(* ================================================================== *)
+(* non-vacuity                                                          *)
+
+Example C18_ex_init_inv : Inv gstate0.
+Proof. exact Inv_init. Qed.
+
+Example C18_ex_puncts : puncts = s"!""#$%&'()*+,-./:;<=>?@[" ++ [ascii_of_nat 92] ++ s"]^_`{|}~" /\ length puncts = 32%nat.
+Proof. split; reflexivity. Qed.
+
+(* the domain restricts nothing but the key prefix: any attribute prefix, any argument lists *)
+Example C18_ex_call_ok :
+  call_ok (C_SetAttrPrefix (s"any string, even <&>")) = true /\
+  call_ok (C_IncludeTagSeqNum [true; false; true]) = true /\
+  call_ok (C_SetFieldSeparator [[]; s"x"]) = true /\
+  call_ok (C_SetGlobalKeyMapPrefix (s"$")) = true /\
+  call_ok (C_SetGlobalKeyMapPrefix (s"ab")) = false /\
+  call_ok (C_SetGlobalKeyMapPrefix []) = false.
+Proof. repeat split. Qed.
+
+Example C18_ex_explicit :
+  explicit (C_CastValuesToFloat [false]) = true /\ explicit (C_CastValuesToFloat []) = false /\
+  explicit (C_SetGlobalKeyMapPrefix (s"_")) = true /\ explicit (C_SetGlobalKeyMapPrefix (s"x")) = false /\
+  explicit (C_SetFieldSeparator [s"|"]) = true /\ explicit (C_SetFieldSeparator []) = false.
+Proof. repeat split. Qed.
+
+(* a history with toggles, two key prefix changes and the escaping switches in both orders *)
+Example C18_ex_history :
+  hist_ok sample_history /\ (8 <= length sample_history)%nat /\
+  run sample_history gstate0 = Some sample_state /\
+  fields sample_state <> fields gstate0 /\
+  run restore sample_state = Some gstate0.
+Proof.
+  exact (conj sample_history_ok (conj (proj1 (Nat.leb_le 8 _) eq_refl)
+        (conj sample_history_result (conj sample_state_differs sample_restore)))).
+Qed.
+Print Assumptions C18_ex_history.
+
+Example C18_ex_escaping_interplay :
+  (forall st, run (firstn 3 sample_history) gstate0 = Some st -> g_xmlEscapeChars st = true /\ g_xmlEscapeCharsDecoder st = false) /\
+  (forall st, run (firstn 4 sample_history) gstate0 = Some st -> g_xmlEscapeChars st = false /\ g_xmlEscapeCharsDecoder st = true) /\
+  (forall st, run (firstn 5 sample_history) gstate0 = Some st -> g_xmlEscapeChars st = false /\ g_xmlEscapeCharsDecoder st = true).
+Proof. exact sample_escaping. Qed.
+
+(* outside the domain (recorded, not part of the property): emptying the key prefix eats the keys; the
+   fifth SetGlobalKeyMapPrefix("") panics on textK[0:1] *)
+Example C18_ex_keyprefix_panic_reachable :
+  run (repeat (C_SetGlobalKeyMapPrefix []) 4) gstate0 <> None /\
+  run (repeat (C_SetGlobalKeyMapPrefix []) 5) gstate0 = None.
+Proof. exact keyprefix_panic_reachable. Qed.
+Print Assumptions C18_ex_keyprefix_panic_reachable.
+
+(* without the domain restriction idempotence fails: a two-character prefix grows on the second call *)
+Example C18_ex_keyprefix_not_idempotent_outside_domain :
+  exists st1 st2, apply_call gstate0 (C_SetGlobalKeyMapPrefix (s"ab")) = Some st1 /\
+                  apply_call st1 (C_SetGlobalKeyMapPrefix (s"ab")) = Some st2 /\
+                  g_textK st1 = s"abtext" /\ g_textK st2 = s"abbtext".
+Proof. exact keyprefix_not_idempotent_outside_domain. Qed.
